@@ -13,6 +13,8 @@ What a contract over one call can say about closed forms in sin / cos / exp / ta
 Transcendental functions are UNINTERPRETED (same symbol on both sides); the only facts about them that are used are listed
 as axioms and instantiated at the calls the code actually makes: exp(x) * exp(-x) == 1, pow(x, -1) == 1 / x; pow(x, n) with an
 integral literal n >= 0 is exact (repeated multiplication).
+  (d) every constructor of the 100+ input-function classes stores each parameter in the member of the same name (a class that
+      drops a geometry / profile parameter evaluates its closed form for other parameters than the rest of the triple).
 NOT decided (no contract expresses differentiation of these forms): source term == -div(alpha grad u) + beta u for the
 64 source-term classes, Jacobians of the Czarny and Culham geometries."""
 import re
@@ -215,8 +217,72 @@ def jacobian_job(cls):
     return j
 
 
+# ---- (d) every input-function object carries the parameters it is constructed with -------------------------------------------
+INPUT_DIRS = ["SourceTerms", "ExactSolution", "BoundaryConditions", "DensityProfileCoefficients", "DomainGeometry"]
+
+
+def ctor_job():
+    """Contract of every constructor of the shipped input-function classes: after construction each member that is named like a
+    constructor parameter holds that parameter (members start from an ARBITRARY in-class default; R11: the member-initialiser list
+    becomes assignments).  A source term / exact solution / boundary class that drops a geometry or profile parameter evaluates its
+    closed form for other parameters than the rest of the triple: a necessary condition of every clause of C19."""
+    import os, units
+    from vlib import REPO
+    rules, hashes = Rules("C19"), {}
+    c = [PRELUDE]
+    h = ["void harness(void) {", "  common_setup();"]
+    ncls = 0
+    for d in INPUT_DIRS:
+        base = os.path.join(REPO, "src/InputFunctions", d)
+        for fn in sorted(os.listdir(base)):
+            if not fn.endswith(".cpp"):
+                continue
+            rel = "src/InputFunctions/%s/%s" % (d, fn)
+            src = Src.get(rel)
+            cls = fn[:-4][0].upper() + fn[:-4][1:]
+            hdr = Src.get("include/InputFunctions/%s/%s.h" % (d, fn[:-4])).text
+            if not re.search(r"\bclass\s+%s\b" % cls, hdr):
+                raise ExtractError("class %s not declared in its header" % cls)
+            k = 0
+            while True:
+                try:
+                    f = src.function("%s::%s" % (cls, cls), occurrence=k)
+                except ExtractError:
+                    break
+                k += 1
+                params = [pn for (pt, pn) in f["params"]]
+                if not params:
+                    continue
+                hashes["%s::%s#%d" % (cls, cls, k - 1)] = sha(f["init"] + "|" + f["params_text"])
+                inits = units.parse_init_list(f["init"]) if f["init"].strip() else []
+                stored = [pn for pn in params if re.search(r"\bdouble\s+%s\b\s*(=[^;]*)?;" % re.escape(pn), hdr)]
+                members = sorted(set([m for m, _ in inits] + stored))
+                tag = "%s_c%d" % (cls, k - 1)
+                c.append("static real_t %s;" % ", ".join("%s__%s" % (tag, m) for m in members) if members else "")
+                body = ["  %s__%s = nondet_real();   /* in-class default member initialiser: arbitrary */" % (tag, m) for m in members]
+                for m, e in inits:
+                    e2 = common_body_rewrites(e, rules, "R")
+                    if not re.fullmatch(r"[\w\s.+\-*/()]+", e2):
+                        raise ExtractError("%s: member initialiser `%s` not understood" % (cls, e))
+                    body.append("  %s__%s = %s;" % (tag, m, e2))
+                c.append("static void %s__ctor(%s)\n{\n%s\n}\n" % (tag, ", ".join("const real_t %s" % pn for pn in params), "\n".join(body)))
+                h.append("  { %s %s__ctor(%s);" % (" ".join("const real_t a_%s = nondet_real();" % pn for pn in params), tag, ", ".join("a_" + pn for pn in params)))
+                for pn in stored:
+                    h.append("    __CPROVER_assert(%s__%s == a_%s, \"OBL:constructor_stores_its_parameter[%s::%s]\");" % (tag, pn, pn, cls, pn))
+                h.append("  }")
+                ncls += 1
+    if ncls < 90:
+        raise ExtractError("only %d input-function constructors found" % ncls)
+    h += ["  __CPROVER_assert(Rmax != Rmax, \"COVER:reached_end\");", "}"]
+    j = Job("C19.constructors", "\n".join(c + h), "R", unwind=4, timeout=600, bounded=None, functions=["%d constructors of src/InputFunctions/**" % ncls],
+            covers={"COVER:reached_end"}, extra=["--no-div-by-zero-check"])
+    j.rules, j.hashes = rules, hashes
+    return j
+
+
 def build_jobs(tier, seed):
-    jobs = [boundary_job(e, b) for (e, b) in pairs_from_select_test_case()]
+    jobs = [ctor_job()]
+    jobs += [boundary_job(e, b) for (e, b) in pairs_from_select_test_case()]
     jobs += [gyro_job(c) for c in GYRO]
     jobs += [jacobian_job(c) for c in GEOMS]
     return jobs
@@ -229,7 +295,8 @@ EXPLANATION = (
     "u_D at r == Rmax and u_D_Interior at r == R0 (any 0 < R0 < Rmax) equal exact_solution for all (theta, sin, cos); (b) each gyro profile: alpha(r) * beta(r) == 1, using only the "
     "axioms exp(x) * exp(-x) == 1 and pow(x, -1) == 1 / x instantiated at the calls made; (c) Circular and Shafranov geometry: the four "
     "Jacobian functions are the partial derivatives of (Fx, Fy), by the exactness of central differences for polynomials of degree <= 2 "
-    "(degree and theta-independence are obligations too) and the chain rule through (sin theta, cos theta). NOT decided: the source "
+    "(degree and theta-independence are obligations too) and the chain rule through (sin theta, cos theta); (d) every constructor of the "
+    "input-function classes stores each parameter in the member of the same name, starting from arbitrary in-class defaults. NOT decided: the source "
     "terms (-div(alpha grad u) + beta u needs symbolic differentiation of 2.7 MB of generated forms), Jacobians of the Czarny and "
     "Culham geometries (sqrt / series: not polynomial), positivity of alpha.")
 
@@ -250,6 +317,34 @@ def inputs_replay_cb(job, key, label, rec):
     loop = ("int main() { const double Rmax = 1.3; int fails = 0; %s\n"
             "  for (int i = 0; i <= 40; i++) for (int j = 0; j < 64; j++) { const double r = 1e-5 + (Rmax - 1e-5) * i / 40.0, t = 2 * M_PI * j / 64.0, s = std::sin(t), c = std::cos(t);\n"
             "    %s }\n  std::printf(\"%%d point(s) failed\\n\", fails); return fails ? 1 : 0; }\n")
+    m = re.search(r"constructor_stores_its_parameter\[(\w+)::(\w+)\]", label)
+    if m and job.name == "C19.constructors":
+        import os
+        cls, par = m.group(1), m.group(2)
+        for d in INPUT_DIRS:
+            rel = "src/InputFunctions/%s/%s.cpp" % (d, lower_first(cls))
+            if os.path.exists(os.path.join(vlib.REPO, rel)):
+                break
+        else:
+            return None
+        k, best = 0, None
+        while True:
+            try:
+                f = Src.get(rel).function("%s::%s" % (cls, cls), occurrence=k)
+            except ExtractError:
+                break
+            k += 1
+            names = [pn for (_, pn) in f["params"]]
+            if par in names:
+                best = names
+        if best is None:
+            return None
+        vals = ["%d.0 / 64" % (70 + 9 * i) for i in range(len(best))]     # distinct, none equal to a shipped default
+        src = ("#include <bits/stdc++.h>\n#include <omp.h>\n#define private public\n#define protected public\n#include \"InputFunctions/%s/%s.h\"\n"
+               "int main() { %s o(%s); const double want = %s; std::printf(\"%s::%s holds %%.17g after construction with %%.17g\\n\", (double)o.%s, want);\n"
+               "  if (o.%s != want) { std::printf(\"[FAIL] the constructor does not store its parameter\\n\"); return 1; } return 0; }\n") % (
+                   d, lower_first(cls), cls, ", ".join(vals), vals[best.index(par)], cls, par, par, par)
+        return vlib.native_generated("replay_c19_ctor", src)
     m = re.match(r"C19\.boundary\[(\w+)\|(\w+)\]", job.name)
     if m:
         e, b = m.group(1), m.group(2)
